@@ -178,3 +178,68 @@ def scf_single(mol, method, uhf, eps=1e-10):
         pad = np.setdiff1d(np.arange(dm.shape[-1]), ci)
         out["pad_density"] = float(np.abs(dm[pad, :]).max()) if len(pad) else 0.0
     return out
+
+
+class MolKernels:
+    """one polyatomic molecule pushed through the real hcore / fock / fock_u_batch kernels (block-level view)."""
+
+    def __init__(self, mol, method, uhf=False):
+        self.species = list(mol["species"])
+        self.ci = compact_index(self.species)
+        self.n = len(self.ci)
+        self.nat = len(self.species)
+        self.params = sp.make_params(method, eps=1e-10, uhf=uhf)
+        self.molecule, self.es = sp.build(mol, self.params)
+        m = self.molecule
+        p = m.parameters
+        self._tail = (
+            p["g_ss"], p["g_pp"], p["g_sp"], p["g_p2"], p["h_sp"], m.method, p["zeta_s"], p["zeta_p"], p["zeta_d"],
+            m.Z, p["F0SD"], p["G2SD"],
+        )  # fmt: skip
+        self.W0 = torch.tensor([0])
+
+    def hcore(self):
+        from seqm.seqm_functions.hcore import hcore
+
+        with torch.no_grad():
+            M, w, rho0xi, rho0xj, riXH, ri = hcore(self.molecule)
+        self.M, self.w = M, w
+        na = self.nat
+        Mn = M.numpy().reshape(na, na, 4, 4)
+        H = np.zeros((4 * na, 4 * na))
+        for i in range(na):
+            D = np.triu(Mn[i, i])
+            H[4 * i : 4 * i + 4, 4 * i : 4 * i + 4] = D + np.triu(D, 1).T
+            for j in range(i + 1, na):
+                H[4 * i : 4 * i + 4, 4 * j : 4 * j + 4] = Mn[i, j]
+                H[4 * j : 4 * j + 4, 4 * i : 4 * i + 4] = Mn[i, j].T
+        m = self.molecule
+        W = {}
+        wn = unpack_w(w.numpy())
+        for p, (i, j) in enumerate(zip(m.idxi.tolist(), m.idxj.tolist())):
+            W[(i, j)] = wn[p]
+        return dict(H=H[np.ix_(self.ci, self.ci)], W=W)
+
+    def _pad(self, P):
+        out = np.zeros((1, 4 * self.nat, 4 * self.nat))
+        out[0][np.ix_(self.ci, self.ci)] = np.asarray(P, float)
+        return torch.as_tensor(out)
+
+    def _args(self, P):
+        m = self.molecule
+        return (m.nmol, m.molsize, P, self.M, m.maskd, m.mask, m.idxi, m.idxj, self.w, self.W0) + self._tail
+
+    def fock(self, P):
+        from seqm.seqm_functions.fock import fock
+
+        with torch.no_grad():
+            F = fock(*self._args(self._pad(P))).numpy()[0]
+        return F[np.ix_(self.ci, self.ci)]
+
+    def fock_u(self, Pa, Pb):
+        from seqm.seqm_functions.fock_u_batch import fock_u_batch
+
+        P = torch.stack((self._pad(Pa), self._pad(Pb)), dim=1)
+        with torch.no_grad():
+            F = fock_u_batch(*self._args(P)).numpy()[0]
+        return F[0][np.ix_(self.ci, self.ci)], F[1][np.ix_(self.ci, self.ci)]
